@@ -1,5 +1,8 @@
-NOTES = ('Technique family: machine-checked proof in Coq 8.16.1. See DESIGN.md. fix: commits in /repo: C13 interval inversion, '
-         'C16 junit SYNTAX_ERROR, C18 integer expression exceptions, C09 shlex commenters.')
+NOTES = ('Technique family: machine-checked proof in Coq 8.16.1 (stdlib-style Gallina models, theorems in coq/Props, coqchk over all Props files in the C01 thorough tier: Axioms <none>). '
+         'See DESIGN.md (sections 1-11: design; section 12: build log, results of eight rounds of seeded changes written by independent agents, false alarms and what was done). '
+         'Genuine defects of emilkarlen/exactly found by the checks: 23 repaired by minimal fix: commits in /repo (listed as "fixed" in known_findings.json with their commits), '
+         '13 recorded as open known findings (KNOWN-FINDING lines). No hooks in /repo. Seeded changes and harmless refactorings used to test the checks are kept under seeded/ '
+         '(tools/mutant_iso.sh runs a check against one of them in a scratch worktree; never applied to /repo except by tools/try_mutant.sh, which undoes it).')
 CORR = 'Coq theorem over hand-written Gallina model + differential correspondence (vm_compute) against the running code'
 CLAIMED = {
     'C13': {
